@@ -126,8 +126,16 @@ def scanFilters : List Filter → Scan → Option Scan
 
 /-! ### grouping by home cluster (list.go:178-190) -/
 
-def wellFormed (u : Uuid) : Bool := u.length == 27
-def home (u : Uuid) : ClusterId := u.take 5
+def uuidLen : Nat := 27
+def prefixLen : Nat := 5
+def statusBadRequest : Nat := 400
+def statusNotFound : Nat := 404
+def statusBadGateway : Nat := 502
+
+/-- `len(uuid) != 27`: "Cannot match anything, just drop it" -/
+def wellFormed (u : Uuid) : Bool := u.length == uuidLen
+/-- `uuid[:5]` -/
+def home (u : Uuid) : ClusterId := u.take prefixLen
 
 def clusterIds (us : List Uuid) : List ClusterId := dedup (us.map home)
 
@@ -164,6 +172,9 @@ def plan (localId : ClusterId) (maxItems : Int) (o : Opts) : Plan :=
 
 def batchFilter (batch : List Uuid) : Filter := ⟨sUuid, sIn, .slist batch⟩
 
+/-- the request sent for one batch: `remoteOpts.Filters = []arvados.Filter{{"uuid", "in", batch}}` -/
+def batchReq (ropts : Opts) (batch : List Uuid) : Opts := { ropts with filters := [batchFilter batch] }
+
 /-- what the merge callback does to the options of every call (list.go:30) -/
 def forwarded (localId : ClusterId) (o : Opts) : Opts :=
   { o with fwd := localId ++ ['-'] ++ o.fwd }
@@ -182,7 +193,7 @@ structure CRes where
   pages : List (List Obj)         -- every page handed to the merge callback, in call order
   log : List (Opts × Resp)        -- every backend call with its answer, in call order
   stop : Stop
-deriving Repr
+deriving DecidableEq, Repr
 
 def CRes.push (req : Opts) (resp : Resp) (items : List Obj) (r : CRes) : CRes :=
   ⟨items :: r.pages, (req, resp) :: r.log, r.stop⟩
@@ -196,7 +207,7 @@ def clusterLoop (B : Backend) (ropts : Opts) : Nat → List Uuid → Nat → CRe
   | fuel + 1, todo, idx =>
     if todo = [] then ⟨[], [], .done⟩ else
     -- batch = todo: the batch is rebuilt from todo whenever todo shrank (list.go:242-248)
-    let req := { ropts with filters := [batchFilter todo] }
+    let req := batchReq ropts todo
     match B req idx with
     | .error s => ⟨[], [(req, .error s)], .failed 502⟩
     | .page items =>
@@ -232,7 +243,7 @@ deriving DecidableEq, Repr
 structure Run where
   out : Outcome
   log : List (ClusterId × List (Opts × Resp))
-deriving Repr
+deriving DecidableEq, Repr
 
 def Stop.status? : Stop → Option Nat
   | .done => none
